@@ -208,8 +208,13 @@ def api_forwards(i_args, i_with, i_kw, i_op):
     reg = be.registry
     orig = reg.get
 
+    class _Cut(Exception):
+        pass
+
     def spy(backend=None, tensors=None):
         seen.append((backend, list(tensors) if tensors is not None else None))
+        if tensors is not None and len(tensors) == len(args):
+            raise _Cut()  # the lookup's arguments are all this harness needs: nothing is compiled
         return orig(backend, tensors)
 
     reg.get = spy
